@@ -146,13 +146,13 @@ func sharedBaseD(p *Prog, fn *ssa.Function, v ssa.Value, depth int) bool {
 		seen[v] = true
 		// an object captured from an enclosing invocation is shared, unless this literal runs synchronously inside it
 		if fv, ok := v.(*ssa.FreeVar); ok {
-			if _, isSync := la.syncLit[fv.Parent()]; !isSync && !immediatelyInvoked(fv.Parent()) {
+			if _, isSync := la.syncLit[fv.Parent()]; !isSync && !la.paramCalled[fv.Parent()] && !immediatelyInvoked(fv.Parent()) {
 				return true
 			}
 		}
 		if u, ok := v.(*ssa.UnOp); ok && u.Op == token.MUL {
 			if fv, ok := u.X.(*ssa.FreeVar); ok {
-				if _, isSync := la.syncLit[fv.Parent()]; !isSync && !immediatelyInvoked(fv.Parent()) {
+				if _, isSync := la.syncLit[fv.Parent()]; !isSync && !la.paramCalled[fv.Parent()] && !immediatelyInvoked(fv.Parent()) {
 					return true
 				}
 			}
@@ -736,6 +736,9 @@ func runC7(p *Prog, o *obls, la *lockAnalysis) {
 		li := la.info[fn]
 		if li == nil || li.nAcq == 0 {
 			continue
+		}
+		if _, isWrapper := lockWrapperOp(fn); isWrapper {
+			continue // a lock()/unlock() helper: its callers are analysed as performing the operation
 		}
 		key := funcKey(fn) + ":balance"
 		if len(li.leaks) == 0 {
